@@ -145,8 +145,12 @@ func (r *Report) Sample(v any) {
 	r.mu.Unlock()
 }
 
-func (r *Report) Rule(s string)   { r.mu.Lock(); r.rule = s; r.mu.Unlock() }
-func (r *Report) Assume(s string) { r.mu.Lock(); r.assumptions = append(r.assumptions, s); r.mu.Unlock() }
+func (r *Report) Rule(s string) { r.mu.Lock(); r.rule = s; r.mu.Unlock() }
+func (r *Report) Assume(s string) {
+	r.mu.Lock()
+	r.assumptions = append(r.assumptions, s)
+	r.mu.Unlock()
+}
 func (r *Report) Note(k string, v any) {
 	r.mu.Lock()
 	r.notes[k] = v
